@@ -667,3 +667,45 @@ def cfgsim_search(repo, prop, tier, seed=1):
             shutil.rmtree(os.path.join(WORK_BASE, "des-drivers-target-" + tag), ignore_errors=True)
         fcntl.flock(lockf, fcntl.LOCK_UN)
         lockf.close()
+
+
+def ndlsim_search(repo, prop, tier, seed=1):
+    """C18 bounded replay, second sentence (replay/ndlsim_driver): unmutated template descriptions built into a simulation on the real des crate."""
+    t0 = time.time()
+    os.makedirs(WORK_BASE, exist_ok=True)
+    lockf = open(os.path.join(WORK_BASE, "rt_driver.lock"), "w")
+    fcntl.flock(lockf, fcntl.LOCK_EX)
+    try:
+        count = 20000 if tier == "thorough" else 400
+        res = {"what": "bounded replay of the second sentence of C18 on the real `des` crate: %d unmutated descriptions from the template of replay/ndl_driver (random cluster sizes 2..4, optional y[2] cluster) are parsed and built with SimBuilder::nodes_from_ndl (default fallback registry); compared with what the template denotes: the set of module paths (root, clusters expanded: mid.a[i], mid.b[i], y[k], nested g.c, q.s) and the gate chains as the topology view reports them (one edge per direction between the owners of the two ends of a chain, labelled with the end gates): the self connection of x, a[i].port - b[i].port, wide[k] - a[k/3].in[k%%3], the inherited pg - s.port, and the five-gate chain wide[1] - a[0].in[1] - mid.up - g.up - g.c.port that crosses three modules and the concrete replacement of the generic parameter. NOT examined: link parameters of the built channels, registered software, other templates" % count,
+               "bound": "%d descriptions; seed %d" % (count, seed), "labelled": "bounded", "counts_as_proof": False}
+        exe, err = _build_rt(repo, "ndlsim_driver")
+        if exe is None:
+            res.update({"status": "not_run", "reason": "driver does not build against this tree: " + err, "wall_s": round(time.time() - t0, 2)})
+            return res
+        try:
+            p = subprocess.run([exe, "search", str(count), str(seed)], stdout=subprocess.PIPE, stderr=subprocess.PIPE, timeout=900)
+        except subprocess.TimeoutExpired:
+            res.update({"status": "mismatch", "mismatch": {"mismatch": True, "kind": "ndl-build-does-not-return", "props": "C18", "expected": "every description is built", "observed": "no result within 900 s"}, "wall_s": round(time.time() - t0, 2)})
+            return res
+        line = (p.stdout.decode("utf8", "replace").strip().splitlines() or ["{}"])[-1]
+        try:
+            j = json.loads(line)
+        except Exception:
+            j = {}
+        res["wall_s"] = round(time.time() - t0, 2)
+        res["cmd"] = "ndlsim_driver search %d %d   (built from replay/ndlsim_driver against %s/des)" % (count, seed, repo)
+        if j.get("mismatch"):
+            res.update({"status": "mismatch", "mismatch": j})
+        elif "scenarios" in j:
+            res.update({"status": "no_mismatch", "scenarios": j["scenarios"], "sample": j.get("sample")})
+        else:
+            res.update({"status": "not_run", "reason": "driver crashed: " + p.stderr.decode("utf8", "replace")[-300:]})
+        return res
+    finally:
+        if repo != "/repo" and not os.environ.get("VERIF_KEEP_CACHE"):
+            tag = hashlib.sha1(repo.encode()).hexdigest()[:8]
+            shutil.rmtree(os.path.join(WORK_BASE, "ndlsim_driver-" + tag), ignore_errors=True)
+            shutil.rmtree(os.path.join(WORK_BASE, "des-drivers-target-" + tag), ignore_errors=True)
+        fcntl.flock(lockf, fcntl.LOCK_UN)
+        lockf.close()
